@@ -662,7 +662,11 @@ class Executor(object):
             elif isinstance(e.op, ast.UAdd):
                 out.append((s, Num.lift(self._num(s, v))))
             elif isinstance(e.op, ast.Invert):
-                self._undecided("~ operator")
+                h = getattr(self, "ext_invert", None)
+                r = h(s, v) if h else None
+                if r is None:
+                    self._undecided("~ operator")
+                out.append((s, r))
         return out
 
     def _num(self, st, v):
@@ -853,6 +857,8 @@ class Executor(object):
         return out
 
     def load_attr(self, st, obj, attr):
+        if isinstance(obj, RefV):
+            attr = getattr(self, "attr_alias", {}).get((obj.cls, attr), attr)
         if isinstance(obj, ModV):
             return [(st, self.module_attr(obj, attr))]
         if isinstance(obj, RefV):
@@ -890,6 +896,12 @@ class Executor(object):
                         out.extend(self.load_attr(s1, o1, attr))
                     return out
                 self._undecided("attribute %s not in schema (class %s)" % (attr, obj.cls))
+            if t in ("labels", "auxframe"):
+                h = getattr(self, "ext_load_attr", None)
+                r = h(st, obj, attr) if h else None
+                if r is not None:
+                    return r
+                self._undecided("attribute %s of type %s" % (attr, t))
             return [(st, st.heap.get(obj, attr))]
         if isinstance(obj, HistV):
             if attr in ("values", "array"):
@@ -950,6 +962,15 @@ class Executor(object):
                 for (s1, h) in hi:
                     out.append((s1, _SliceV(l, h)))
             return out
+        if isinstance(sl, ast.Tuple) and any(isinstance(x, ast.Slice) for x in sl.elts):
+            results = [(st, [])]
+            for x in sl.elts:
+                nxt = []
+                for (s, vals) in results:
+                    for (s1, v) in self.eval_index(x, s):
+                        nxt.append((s1, vals + [v]))
+                results = nxt
+            return [(s, TupleV(vals)) for (s, vals) in results]
         return self.eval(sl, st)
 
     def expr_Subscript(self, e, st):
